@@ -220,6 +220,11 @@ func genReq(t *rapid.T, label string, intact *bool) Req {
 			schema["flat"] = map[string]any{"type": "vectorFlat", "vectorFlat": map[string]any{"vectorSize": 4.0, "distanceMetric": rapid.SampledFrom([]string{"euclidean", "cosine", "dot", "hamming", "jaccard"}).Draw(t, label+"-m"),
 				"quantizer": map[string]any{"type": "binary", "binary": map[string]any{"threshold": 0.5, "triggerThreshold": 10.0, "distanceMetric": "hamming"}}}}
 		}
+		if rapid.IntRange(0, 5).Draw(t, label+"-pq") == 0 {
+			// a valid product quantiser (sub-vectors divide the vector, metric supported)
+			schema["flat"] = map[string]any{"type": "vectorFlat", "vectorFlat": map[string]any{"vectorSize": 2.0, "distanceMetric": rapid.SampledFrom([]string{"euclidean", "cosine", "dot", "hamming"}).Draw(t, label+"-pqm"),
+				"quantizer": map[string]any{"type": "product", "product": map[string]any{"numCentroids": float64(rapid.SampledFrom([]int{2, 16, 256}).Draw(t, label+"-pqc")), "numSubVectors": 2.0, "triggerThreshold": 1000.0}}}}
+		}
 		body = map[string]any{"id": rapid.SampledFrom([]string{"new1", "new2", "colv2", "abc"}).Draw(t, label+"-newid"), "indexSchema": schema}
 		targets = []targeted{
 			{"collection id shorter than 3", func(b map[string]any) { b["id"] = "ab" }},
@@ -238,8 +243,52 @@ func genReq(t *rapid.T, label string, intact *bool) Req {
 				vam(b)["quantizer"] = map[string]any{"type": "product", "product": map[string]any{"numCentroids": 1.0, "numSubVectors": 2.0, "triggerThreshold": 1000.0}}
 			}},
 		}
+		// the same parameter violations with an explicit, valid quantiser section next to them, and on a flat
+		// index (its parameters are validated by code of their own)
+		withQ := func(m map[string]any) {
+			m["quantizer"] = rapid.SampledFrom([]any{map[string]any{"type": "none"},
+				map[string]any{"type": "binary", "binary": map[string]any{"threshold": 0.5, "triggerThreshold": 10.0, "distanceMetric": "hamming"}}}).Draw(t, label+"-okq")
+		}
+		flatP := func(b map[string]any) map[string]any {
+			sc := b["indexSchema"].(map[string]any)
+			fp := map[string]any{"vectorSize": 2.0, "distanceMetric": "euclidean"}
+			sc["flat"] = map[string]any{"type": "vectorFlat", "vectorFlat": fp}
+			return fp
+		}
+		targets = append(targets,
+			targeted{"graph index: product quantiser whose sub-vectors do not divide the vector", func(b map[string]any) {
+				vam(b)["vectorSize"] = 3.0
+				vam(b)["quantizer"] = map[string]any{"type": "product", "product": map[string]any{"numCentroids": 4.0, "numSubVectors": 2.0, "triggerThreshold": 1000.0}}
+			}},
+			targeted{"graph index: haversine with vector size 3 and a valid quantiser section", func(b map[string]any) {
+				vam(b)["distanceMetric"], vam(b)["vectorSize"] = "haversine", 3.0
+				vam(b)["quantizer"] = map[string]any{"type": "none"}
+			}},
+			targeted{"graph index: vectorSize 0 and a valid quantiser section", func(b map[string]any) { vam(b)["vectorSize"] = 0.0; withQ(vam(b)) }},
+			targeted{"graph index: degreeBound 65 and a valid quantiser section", func(b map[string]any) { vam(b)["degreeBound"] = 65.0; withQ(vam(b)) }},
+			targeted{"graph index: unknown metric and a valid quantiser section", func(b map[string]any) { vam(b)["distanceMetric"] = "manhattan"; withQ(vam(b)) }},
+			targeted{"flat index: haversine with vector size 1", func(b map[string]any) { fp := flatP(b); fp["distanceMetric"], fp["vectorSize"] = "haversine", 1.0 }},
+			targeted{"flat index: haversine with vector size 3 and a valid quantiser section", func(b map[string]any) {
+				fp := flatP(b)
+				fp["distanceMetric"], fp["vectorSize"] = "haversine", 3.0
+				fp["quantizer"] = map[string]any{"type": "none"}
+			}},
+			targeted{"flat index: vectorSize 0", func(b map[string]any) { flatP(b)["vectorSize"] = 0.0 }},
+			targeted{"flat index: vectorSize 4097 and a valid quantiser section", func(b map[string]any) { fp := flatP(b); fp["vectorSize"] = 4097.0; withQ(fp) }},
+			targeted{"flat index: unknown metric and a valid quantiser section", func(b map[string]any) { fp := flatP(b); fp["distanceMetric"] = "manhattan"; withQ(fp) }},
+			targeted{"flat index: product quantiser with the haversine metric", func(b map[string]any) {
+				fp := flatP(b)
+				fp["distanceMetric"] = "haversine"
+				fp["quantizer"] = map[string]any{"type": "product", "product": map[string]any{"numCentroids": 4.0, "numSubVectors": 2.0, "triggerThreshold": 1000.0}}
+			}},
+			targeted{"flat index: product quantiser whose sub-vectors do not divide the vector", func(b map[string]any) {
+				fp := flatP(b)
+				fp["vectorSize"] = 3.0
+				fp["quantizer"] = map[string]any{"type": "product", "product": map[string]any{"numCentroids": 4.0, "numSubVectors": 2.0, "triggerThreshold": 1000.0}}
+			}},
+		)
 		if noVector {
-			targets = targets[:3]
+			targets = append(targets[:3:3], targets[len(targets)-7:]...) // the collection id ones and the flat-index ones
 		}
 	case "createV1":
 		r.Method, r.Path = "POST", "/v1/collections"
